@@ -26,6 +26,13 @@ CLAIMED.update({
    technique=TECH + ": seeded cooperative interleaving of compile tasks + map-order seam, structural code-object comparison against a solo baseline"),
 })
 
+CLAIMED.update({
+ "C05": dict(engine="gens", design="§3 C05",
+   text="The simulator plays the caller of several live generators/iterators and the faulty producer: seeded histories of create/next/send/consume (31 consumers) over generator functions with try/finally and return values, iterator and iterable classes, yield-from delegators, map/filter/genexp/zip/enumerate wrappers and built-in iterators, with a seeded item raising a seeded exception or the end signalled by StopIteration as class / instance / instance with value; every step's value, finally-block execution, exception class and StopIteration.args, plus two exhaustion probes per producer, must equal the trace of the same history in CPython.",
+   note="Trusted: CPython 3.11 as reference (generator bodies never leak StopIteration, so PEP 479 does not matter); canonical rendering of ints/strs/lists/tuples/sets identical on both sides; frozenset(iterable), dict(zip()), str-item producers, sets of tuples and send() into non-generators are outside the generated fragment (gaps of the tree unrelated to the property, see DESIGN §2.4b).",
+   technique=TECH + ": seeded caller histories over suspended generator frames + fault-injecting producers, CPython reference trace"),
+})
+
 NA = {
  "C01": "pure function of the program text (evaluation order/grouping): no schedule, clock, fault or environment history to simulate; needs enumeration against a reference semantics",
  "C02": "which statement raises/returns is fixed by program + inputs; the unwinding loop is deterministic and single-threaded; no simulation target",
@@ -40,7 +47,6 @@ NA = {
  "C16": "attribute lookup is a function of the class-hierarchy program; no concurrency or environment choice enters",
 }
 PENDING = {
- "C05": "engine `gens` not built yet",
  "C08": "engine `isolation` not built yet",
  "C17": "engine `containers` not built yet",
  "C19": "engine `imports` not built yet",
